@@ -24,12 +24,12 @@ type localInfo struct {
 }
 
 type translator struct {
-	oc                                *opCtx
-	m                                 *machine
-	sourceName, subCtxName, destName  string
-	locals                            map[string]localInfo
-	cbCtx                             expr // the current callback's own context parameter
-	stateName                         string
+	oc                               *opCtx
+	m                                *machine
+	sourceName, subCtxName, destName string
+	locals                           map[string]localInfo
+	cbCtx                            expr // the current callback's own context parameter
+	stateName                        string
 }
 
 // symbolic value of a flag-guarded tuple
